@@ -11,6 +11,8 @@ from vf.core import yp
 from vf.gen import docs as gd
 from vf.gen import paths as gp
 from vf.checks import editsteps as ES
+from vf.core.yp import Processor, LOG, YAMLPathException
+from vf.model import edits as E
 
 PROPERTY = "C03"
 LEVEL = "exploration"
@@ -25,7 +27,7 @@ REACH = [("yamlpath/processor.py", "_apply_change", "Processor._apply_change"),
          ("yamlpath/processor.py", "_update_node,recurse", "Processor._update_node / recurse"),
          ("yamlpath/common/nodes.py", "make_new_node,make_float_node", "Nodes.make_new_node")]
 SIZES = {"quick": 50000, "thorough": 800000}
-REQUIRED_COUNTERS = ["set_steps", "reload_checked", "set_steps_with_aliases", "set_collector_steps", "set_inherited_key_steps"]
+REQUIRED_COUNTERS = ["tagged_set_steps", "set_steps", "reload_checked", "set_steps_with_aliases", "set_collector_steps", "set_inherited_key_steps"]
 
 SEEDS = [
     ("[1, 1, 2]", [("INDEX", 1)], 9), ("{a: b, b: x}", [("KEY", "a")], "z"),
@@ -176,6 +178,67 @@ def run_history(ctx, rng, text, data, nsteps):
     return hist
 
 
+def tagged_set_case(ctx, rng, text, data):
+    """A set that also applies a YAML tag (`set_value(..., tag=)`, yaml-set --tag), for new values of every scalar type:
+    the matched node holds the tagged value, nothing else changes, and the document still serializes and reloads."""
+    segs = path_to_random_scalar(rng, data)
+    if segs is None or any(t == "KEY" and k.isdigit() for t, k in segs):
+        return
+    value = rng.choice([5, -3, 1.5, True, False, "txt", "x y", 0, "7"])
+    vtext = {True: "true", False: "false"}.get(value, str(value)) if isinstance(value, bool) else str(value)
+    ptext = gp.render(segs, rng.choice([".", "/"]))
+    # location of the target among own items
+    loc, node = [], data
+    for t, k in segs:
+        if isinstance(node, dict):
+            keys = [kk for kk, _v in yp.own_items(node)]
+            if k not in keys:
+                return
+            loc.append(keys.index(k))
+            node = node[k]
+        else:
+            i = int(k)
+            loc.append(i if i >= 0 else len(node) + i)
+            node = node[i]
+    if yp.anchor_of(node) is not None:
+        return
+    case = {"doc": text, "path": ptext, "value": repr(value), "tag": "!vf", "op": "set-tagged"}
+    before = E.put(E.image(data), loc, E.value_image("X"))
+    ctx.evaluations += 1
+    ctx.counters["tagged_set_steps"] = ctx.counters.get("tagged_set_steps", 0) + 1
+    ctx.mark_nontrivial([text, ptext, repr(value), "tagged"])
+    try:
+        Processor(LOG, data).set_value(ptext, value, mustexist=True, tag="!vf")
+    except YAMLPathException:
+        ctx.count("tagged_set_refused")
+        return
+    except Exception as e:
+        ctx.violation("set-tagged/crash/%s" % type(e).__name__, {"case": case, "summary": repr(e)[:150]})
+        return
+    try:
+        out = yp.dump(data)
+    except Exception as e:
+        ctx.violation("set-tagged/dump-raises/%s" % type(e).__name__, {"case": case, "summary": "the edited document cannot be written: %r" % (e,)})
+        return
+    try:
+        back = yp.load(out)
+    except yp.LoadError:
+        ctx.violation("set-tagged/does-not-reload", {"case": case, "summary": out[:200]})
+        return
+    for name, doc in (("live", data), ("reloaded", back)):
+        img = E.image(doc)
+        got = E.get(img, loc)
+        if got.get("v") != ["tagged", "!vf", ("str", vtext)]:
+            ctx.violation("set-tagged/value/%s" % name, {"case": case, "summary": "the node holds %r ; expected !vf %s" % (got.get("v"), vtext)})
+            return
+        frame = E.put(img, loc, E.value_image("X"))
+        # (the reloaded copy is compared without anchors: ruamel.yaml does not write back the anchor of a container that
+        # nothing refers to - the known finding filed under C19 - which is no doing of this set)
+        if (frame != before) if name == "live" else (E.strip_anchors(frame) != E.strip_anchors(before)):
+            ctx.violation("set-tagged/frame/%s" % name, {"case": case, "summary": "%r" % (E.diff(before, frame)[:3],)})
+            return
+
+
 def run_shard(ctx):
     rng = ctx.rng
     if ctx.shard == 0:
@@ -203,6 +266,9 @@ def run_shard(ctx):
             yp.to_block(data)
         if not ES.roundtrips(data):
             ctx.count("doc_does_not_roundtrip_unedited_skipped")
+            continue
+        if rng.random() < 0.05:
+            tagged_set_case(ctx, rng, text, data)
             continue
         hist = run_history(ctx, rng, text, data, rng.choice([1, 1, 2, 3, 4, 6]))
         n += 1
